@@ -291,7 +291,8 @@ def make_sim(ids, nodeids):
 def cases(tier, seed):
     out = [{"part": "format"}, {"part": "scanner", "order": "fwd"}, {"part": "scanner", "order": "rev"},
            {"part": "scanner", "order": "ext"}, {"part": "reentrant"}]
-    for op in ("del-node", "unsub-a", "unsub-b", "replace-node"):
+    out.append({"part": "scanner-seq", "depth": 5 if tier == "quick" else 7})
+    for op in ("del-node", "unsub-a", "unsub-b", "replace-node", "sub-d"):
         out.append({"part": "concurrent", "op": op, "P": 1 if tier == "quick" else 2})
     out.append({"part": "bfs", "ids": [0x000, 0x585, 0x181], "nodeids": [5, 6], "depth": 3 if tier == "quick" else 4})
     return out
@@ -408,7 +409,7 @@ def run_concurrent(case, st):
         net = canopen.Network()
         simenv.SimBus("inline").attach(net, "n")
         log = []
-        a, b, c = Rec("a", log), Rec("b", log), Rec("c", log)
+        a, b, c, d = Rec("a", log), Rec("b", log), Rec("c", log), Rec("d", log)
         n5 = net.add_node(canopen.RemoteNode(5, od()))
         net.subscribe(0, a)
         n6 = net.add_node(canopen.RemoteNode(6, od()))
@@ -429,12 +430,23 @@ def run_concurrent(case, st):
                 net.unsubscribe(0, b)
             elif op == "replace-node":
                 net.add_node(spare)
+            elif op == "sub-d":
+                net.subscribe(0, d)
         s.spawn(receiver, "receiver")
         s.spawn(app, "app")
-        return lambda: (tuple(x[0] for x in log), n6.nmt._state, s.deadlock)
+
+        def result():
+            first = tuple(x[0] for x in log)
+            st6 = n6.nmt._state
+            del log[:]
+            if not s.deadlock:
+                # both threads are done: a second frame must reach exactly the handlers subscribed now
+                net.notify(0, bytearray([2, 0]), 8.0)
+            return first, st6, s.deadlock, tuple(x[0] for x in log), n6.nmt._state
+        return result
 
     def on_exec(s, out):
-        log, st6, deadlock = out
+        log, st6, deadlock, log2, st6b = out
         st.evaluations += 1
         st.traces += 1
         st.transitions += len(s.trace)
@@ -450,18 +462,23 @@ def run_concurrent(case, st):
             probs.append(f"node 6 (untouched) missed the NMT broadcast: state {st6}")
         if deadlock:
             probs.append(f"deadlock {deadlock}")
+        else:
+            now = stay + (["d"] if op == "sub-d" else [])
+            if sorted(log2) != sorted(now) or st6b != 4:
+                st.violation(f"C10:concurrent:{op}:later-frame", rc, f"the next frame reaches exactly {now} and node 6",
+                             f"reached {list(log2)}, node 6 state {st6b}")
         if probs:
             st.violation(f"C10:concurrent:{op}:handler-skipped", rc, "every handler that stays subscribed sees the frame once", probs)
         st.outcome(f"concurrent {op}: {'ok' if not probs else 'bad'}")
 
     if "schedule" in case:
         simenv.new_world()
-        s = vsched.Scheduler(case["schedule"], line_root=root, horizon=20000)
+        s = vsched.Scheduler(case["schedule"], line_root=root, horizon=20000, after_calls=True)
         result = harness(s)
         s.run()
         on_exec(s, result())
         return
-    stats = vsched.explore_schedules(harness, case["P"], on_exec=on_exec, line_root=root, horizon=20000)
+    stats = vsched.explore_schedules(harness, case["P"], on_exec=on_exec, line_root=root, horizon=20000, after_calls=True)
     st.states += stats["executions"]
     st.count("line_level_schedules", stats["executions"])
     st.sample({"concurrent": case, "schedules": stats["executions"], "points": stats["max_points"]}, cap=8)
@@ -487,6 +504,8 @@ def run_case(case, st):
         _merge(res, st, case)
     elif case["part"] == "format":
         run_format(case, st)
+    elif case["part"] == "scanner-seq":
+        run_scanner_seq(case, st)
     else:
         run_scanner(case, st)
 
@@ -556,6 +575,40 @@ def run_scanner(case, st):
     st.states += 1
     st.transitions += len(ids)
     st.sample({"scanner": case["order"], "ids": len(ids), "listed": len(want)})
+
+
+SCAN_ALPHA = (0x705, 0x185, 0x706, 0x605, "reset")
+
+
+def run_scanner_seq(case, st):
+    """Every sequence of frames / reset() up to the depth: the list is the ids seen since the last reset, first appearance order."""
+    import itertools
+    import canopen
+    seqs = [case["seq"]] if "seq" in case else (list(q) for n in range(1, case["depth"] + 1)
+                                                for q in itertools.product(SCAN_ALPHA, repeat=n))
+    n = 0
+    for seq in seqs:
+        n += 1
+        st.evaluations += 1
+        st.traces += 1
+        net = canopen.Network()
+        since = []
+        for k, e in enumerate(seq):
+            st.transitions += 1
+            if e == "reset":
+                net.scanner.reset()
+                since = []
+            else:
+                net.notify(e, bytearray(b"\x05"), 0.0)
+                since.append(e)
+            if net.scanner.nodes != scanner_expected(since):
+                st.violation("C10:scanner:sequence" + (":after-reset" if "reset" in seq[:k] else ""),
+                             {"part": "scanner-seq", "seq": list(seq[:k + 1])}, scanner_expected(since), list(net.scanner.nodes))
+                break
+        if "reset" in seq:
+            st.nontrivial_n += 1
+    st.states += n
+    st.sample({"scanner-seq": case.get("depth"), "sequences": n})
 
 
 def finish(st, tier):
